@@ -475,6 +475,9 @@ def gen_strategy(s: Choices, ds):
     st["cpu"] = s.weighted([(4, 4), (1, 1), (1, 2), (1, 3), (1, 8), (1, 16), (1, 64)])
     st["workers"] = s.weighted([(5, None), (2, 1), (2, 2), (1, 3), (1, 5), (1, 8)])
     st["numba_threads"] = 1 + s.draw(2)
+    # pre-emptive pool model: task bodies in real threads, one at a time, pre-empted at drawn
+    # library lines (fault-free configurations only; DESIGN 9.5)
+    st["preempt"] = s.chance(1, 3)
     return st
 
 
